@@ -21,39 +21,49 @@ Definition file_globals (hbuf : nat) : memory :=
    ("ipad", cell U8 (Z.of_N Wencry.Gen.Layout.hmac_ipad)); ("opad", cell U8 (Z.of_N Wencry.Gen.Layout.hmac_opad));
    ("Magic_Num", cell U64 (Z.of_N Wencry.Gen.Layout.Magic_Num)); ("THREAD_MAX", cell U8 (Z.of_N Wencry.Gen.Layout.THREAD_MAX))].
 
+(* where the objects created at run time are placed: the hasher returned by HashFactory::getHasher at the root prefix "",
+   the filebuffer64 at "buf." -- the prefixes for which the class and driver refinement lemmas are stated *)
+Definition hash_class_name (hm : N) : string :=
+  match hm with 0%N => "sha1hash" | 1%N => "md5hash" | 2%N => "sha256hash" | _ => "?" end.
+Definition alloc_plan : list (string * value) :=
+  [("alloc:sha1hash", VPtr "" 0); ("alloc:md5hash", VPtr "" 0); ("alloc:sha256hash", VPtr "" 0); ("alloc:filebuffer64", VPtr "buf." 0)].
+Definition file_vt (hm : N) : list (string * string) := [("", hash_class_name hm); ("buf.", "filebuffer64")].
+
 Definition stream (data : list N) (pos : nat) : cfile := {| cf_data := map Z.of_N data; cf_pos := pos; cf_eof := false |}.
 
 (* hmac h; h.gethmac(hashtype, key, fp, out, 0) with fp positioned at `pos` of `data`: the tag bytes (length = h.length) *)
 Definition src_hmac (hbuf : nat) (hashtype : N) (key : list N) (data : list N) (pos : nat) : sres (list N) :=
-  let m := file_globals hbuf ++ mk_objects "" Src_fheader.objects_hmac ++ [("key", bytes_object key); ("out", mk_object U8 64)] in
-  let st := {| mem := m; loc := []; pre := ""; files := [("fp", stream data pos)]; ptrs := []; fresh := 0 |} in
-  of_res (call file_prog [] (List.length data / 64 + 3000) "hmac::gethmac/5" ""
+  let m := file_globals hbuf ++ mk_objects "hm." Src_fheader.objects_hmac ++ [("key", bytes_object key); ("out", mk_object U8 64)] in
+  let st := {| mem := m; loc := []; pre := ""; files := [("fp", stream data pos)]; ptrs := alloc_plan; fresh := 0 |} in
+  of_res (call file_prog (file_vt hashtype) (List.length data / 64 + 3000) "hmac::gethmac/5" "hm."
                [VInt (Z.of_N hashtype); VPtr "key" 0; VPtr "fp" 0; VPtr "out" 0; VInt 0] st)
-    (fun r => match get_bytes (snd r) "out", mget (mem (snd r)) "length" with
+    (fun r => match get_bytes (snd r) "out", mget (mem (snd r)) "hm.length" with
               | Some o, Some l => SOk (firstn (Z.to_nat (nth 0 (o_cells l) 0)) o)
               | _, _ => SErr "no result"
               end).
 
 (* h.cmphmac(hashtype, key, fp, stored, 0) *)
 Definition src_cmphmac (hbuf : nat) (hashtype : N) (key : list N) (data : list N) (pos : nat) (stored : list N) : sres bool :=
-  let m := file_globals hbuf ++ mk_objects "" Src_fheader.objects_hmac ++ [("key", bytes_object key); ("stored", bytes_object stored)] in
-  let st := {| mem := m; loc := []; pre := ""; files := [("fp", stream data pos)]; ptrs := []; fresh := 0 |} in
-  of_res (call file_prog [] (List.length data / 64 + 3000) "hmac::cmphmac/5" ""
+  let m := file_globals hbuf ++ mk_objects "hm." Src_fheader.objects_hmac ++ [("key", bytes_object key); ("stored", bytes_object stored)] in
+  let st := {| mem := m; loc := []; pre := ""; files := [("fp", stream data pos)]; ptrs := alloc_plan; fresh := 0 |} in
+  of_res (call file_prog (file_vt hashtype) (List.length data / 64 + 3000) "hmac::cmphmac/5" "hm."
                [VInt (Z.of_N hashtype); VPtr "key" 0; VPtr "fp" 0; VPtr "stored" 0; VInt 0] st)
     (fun r => match fst r with Some (VInt z) => SOk (negb (Z.eqb z 0)) | _ => SErr "no result" end).
 
 (* a runcrypt object over the input stream F (as the constructor leaves it: header(fin, out, key, ctype, htype, T)),
    then verify(fsize): the result code *)
 Definition runcrypt_state (hbuf T : nat) (F key : list N) : state :=
-  {| mem := file_globals hbuf ++ mk_objects "" Src_cry.objects_runcrypt ++ [("key", bytes_object key)];
+  {| mem := file_globals hbuf ++ mk_objects "rc." Src_cry.objects_runcrypt ++ [("key", bytes_object key)];
      loc := []; pre := "";
      files := [("fin", stream F 0); ("fout", stream [] 0)];
-     ptrs := [("fin", VPtr "fin" 0); ("out", VPtr "fout" 0); ("key", VPtr "key" 0)]; fresh := 0 |}.
+     ptrs := alloc_plan ++ [("rc.fin", VPtr "fin" 0); ("rc.out", VPtr "fout" 0); ("rc.key", VPtr "key" 0)]; fresh := 0 |}.
 Definition src_verify (hbuf T : nat) (F key : list N) : sres N :=
   let fuel := (List.length F / 64 + 3000)%nat in
-  of_res (call file_prog [] fuel "FileHeader::FileHeader/6" "header."
+  (* the hash mode byte of the file decides which hasher class the factory creates; out of range: none is created *)
+  let vt := file_vt (nth 9 F 0%N) in
+  of_res (call file_prog vt fuel "FileHeader::FileHeader/6" "rc.header."
                [VPtr "fin" 0; VPtr "fout" 0; VPtr "key" 0; VInt 255; VInt 255; VInt (Z.of_nat T)] (runcrypt_state hbuf T F key))
-    (fun r0 => of_res (call file_prog [] fuel "runcrypt::verify/1" "" [VInt (Z.of_nat (List.length F))] (snd r0))
+    (fun r0 => of_res (call file_prog vt fuel "runcrypt::verify/1" "rc." [VInt (Z.of_nat (List.length F))] (snd r0))
     (fun r => match fst r with Some (VInt z) => SOk (Z.to_N z) | _ => SErr "no result" end)).
 
 (* encryption side: header(fin, out, key, cm, hm, T); prepare_IV(seed): the bytes written to the output (the header with
@@ -62,9 +72,9 @@ Definition src_header (hbuf T : nat) (cm hm : N) (key seed : list N) : sres (lis
   let s0 := runcrypt_state hbuf T [] key in
   let s1 := with_mem s0 (mem s0 ++ [("seed", bytes_object (seed ++ [0%N]))]) in
   let fuel := (List.length seed / 64 + 3000)%nat in
-  of_res (call file_prog [] fuel "FileHeader::FileHeader/6" "header."
+  of_res (call file_prog (file_vt 0%N) fuel "FileHeader::FileHeader/6" "rc.header."
                [VPtr "fin" 0; VPtr "fout" 0; VPtr "key" 0; VInt (Z.of_N cm); VInt (Z.of_N hm); VInt (Z.of_nat T)] s1)
-    (fun r0 => of_res (call file_prog [] fuel "runcrypt::prepare_IV/1" "" [VPtr "seed" 0] (snd r0))
+    (fun r0 => of_res (call file_prog (file_vt 0%N) fuel "runcrypt::prepare_IV/1" "rc." [VPtr "seed" 0] (snd r0))
     (fun r => match lget (files (snd r)) "fout" with
               | Some f => SOk (map Z.to_N (cf_data f))
               | None => SErr "no stream"
